@@ -20,3 +20,5 @@ mod c17;
 mod c31;
 #[cfg(all(kani, feature = "c13"))]
 mod c13;
+#[cfg(all(kani, feature = "c20"))]
+mod c20;
